@@ -2,8 +2,11 @@ package main
 
 import (
 	"bufio"
+	"math/rand"
 	"os"
 )
+
+func newRand(seed int64) *rand.Rand { return rand.New(rand.NewSource(seed)) }
 
 func cmdSim(tab *SymTab, rd *os.File, bw *bufio.Writer, workers int, iavl bool)   { panic("todo") }
 func cmdReplay(tab *SymTab, rd *os.File, bw *bufio.Writer)                        { panic("todo") }
@@ -15,6 +18,12 @@ func extraCommand(cmd string, tab *SymTab, rd *os.File, bw *bufio.Writer, worker
 		cmdCodec(bw, n, seed)
 	case "codecreplay":
 		cmdCodecReplay(rd, bw)
+	case "misc":
+		cmdMisc(tab, bw, seed)
+	case "determinism":
+		cmdDeterminism(tab, bw, n, depth, seed)
+	case "detchild":
+		cmdDetChild(tab, rd, bw)
 	case "reimport":
 		cmdReimport(tab, bw, n, depth, seed)
 	default:
